@@ -253,6 +253,8 @@ class EBB3:
             self.disconnect() # Try to close the port, in case it is open.
             return False
 
+        self.version = None         # Forget the version read in any earlier session
+        self.version_parsed = None
         self.parse_version(str_version) # Parse firmware version
 
         if (self.version_parsed is None) or (not self.min_version(self.MIN_VERSION_STRING)):
